@@ -31,7 +31,7 @@ def explore(ck):
     ck.rule = ('(a) write faults: the three file-producing callbacks under RLIMIT_FSIZE (SIGXFSZ ignored) for limits 0,1,|header|, every file size -1/+0/+1, total-1, total and sampled values '
                '(every byte in the thorough tier); exit status, names and sizes in the dump folder are compared with the output-protocol model (OutProto.run with the 4 MB BufWriter capacity) '
                'and with the property: exit 0 => finals identical to the undisturbed run and no *.tmp; failure => no final-named file. (b) input faults at every height: blk file removed, emptied, '
-               'truncated inside the magic, the size prefix, the header, a transaction; offset past EOF: non-zero exit, failing height reported, no final-named file. (c) crash points: SIGKILL / ENOSPC '
+               'truncated inside the magic, the size prefix, the header, a transaction; offset past EOF (just past, and >= 2^27 / 2^32 / 2^63): non-zero exit, failing height reported, no final-named file. (d) empty ranges (--start above the tip): exit 0 only with all finals present and no *.tmp. (c) crash points: SIGKILL / ENOSPC '
                'injected with strace at the n-th write and at the n-th rename/link/copy_file_range/sendfile on the dump files, a failing (EACCES) n-th rename, the dump folder pre-seeded with longer stale *.tmp files of an aborted run: every final-named file that exists is complete. Non-trivial: the fault lands strictly inside the output '
                '(0 < limit < total) or on an input byte of a processed block; distinct by (callback, fault).')
     # ---------- (a) write budget ----------
@@ -72,7 +72,10 @@ def explore(ck):
                 diffs = []
                 code, files = exp
                 if (rr.rc == 0) != (code == 0): diffs.append('exit impl=%s model=%s' % (rr.rc, code))
-                if got != files: diffs.append('dump folder impl=%s model=%s' % (got, files))
+                fin = lambda d_: {n_: z for n_, z in d_.items() if not n_.endswith('.tmp')}
+                if fin(got) != fin(files): diffs.append('final-named files impl=%s model=%s' % (fin(got), fin(files)))
+                # how much of a tmp file is on disk when a run fails depends on the buffer size and flush strategy, which no property fixes: recorded, not compared
+                ck.count('write-limit runs: tmp file sizes %s the model\'s' % ('equal' if got == files else 'differ from'))
                 # property-level
                 finals = {n: d for n, d in rr.files.items() if not n.endswith('.tmp')}
                 if rr.rc == 0:
@@ -136,8 +139,8 @@ def explore(ck):
             f = 0 if h < 4 else 1; off = base.put_block(f, b.raw); base.add_record(b, h, f, off); place[h] = (f, off)
         for h in range(6):
             f, off = place[h]; blen = len(blocks[h].raw)
-            faults = [('removed', None), ('emptied', 0), ('past_eof', None)] + [('cut', p) for p in sorted({off - 8, off - 6, off - 4, off - 2, off, off + 1, off + 40, off + 80, off + 81, off + blen // 2, off + blen - 1})]
-            for kind, p in (faults if not quick else faults[:3] + r.sample(faults[3:], 4)):
+            faults = [('removed', None), ('emptied', 0), ('past_eof', None), ('past_eof', [2**27 + 5, 300000000, 2**32 + 7, 2**63][(h + k) % 4])] + [('cut', p) for p in sorted({off - 8, off - 6, off - 4, off - 2, off, off + 1, off + 40, off + 80, off + 81, off + blen // 2, off + blen - 1})]
+            for kind, p in (faults if not quick else faults[:4] + r.sample(faults[4:], 4)):
                 c = copy.copy(base); c.id = '%s_h%d_%s%s' % (base.id, h, kind, '' if p is None else p); c.files = {n: list(e) for n, e in base.files.items()}; c.meta = dict(fault=(h, kind, p))
                 if kind == 'removed':
                     del c.files[f]
@@ -145,7 +148,7 @@ def explore(ck):
                 elif kind == 'emptied': c.files[f] = [(0, b'')]
                 elif kind == 'past_eof':
                     size = sum(len(d) for o, d in c.files[f]); c.records = list(base.records)
-                    c.records[h] = (c.records[h][0], index_value(1, h, STATUS_ACTIVE, len(blocks[h].txs), f, size + 100 + 8, 0, blocks[h].header))
+                    c.records[h] = (c.records[h][0], index_value(1, h, STATUS_ACTIVE, len(blocks[h].txs), f, (size + 100 + 8) if p is None else p, 0, blocks[h].header))
                 else:
                     o, d = c.files[f][0]; c.files[f] = [(o, d[:p])]
                 c.meta['cbs'] = [FILECB[(h + k) % 3], 'opreturn'] if quick else FILECB + ['opreturn', 'stats']
@@ -153,6 +156,20 @@ def explore(ck):
                 first_bad = h
                 if kind in ('removed', 'emptied'): first_bad = min(hh for hh in range(6) if place[hh][0] == f)
                 c.meta['first_bad'] = first_bad; cases.append(c)
+    # ---------- (d) the exit-0 clause is unconditional: runs over an EMPTY range (--start above the tip) that exit 0 must leave their final-named files and no *.tmp ----------
+    for k, (T, s_, e_) in enumerate([(5, 6, None), (5, 10, 20), (2, 3, 9), (0, 1, None)]):
+        coin = gen.ALL_COINS[(k * 3 + 2) % 8]; blocks = gen.random_chain(r, coin, T + 1, max_tx=2)
+        c = Case('empty%d' % k, coin).simple_layout(blocks); c.start = s_; c.end = e_
+        m = run.run_model(ck.tools, [c], ['csv', 'unspent', 'balances'])[c.id]
+        for cb in FILECB:
+            rr = run.run_impl(ck.tools, c, cb); ck.evaluated(); ck.count('empty-range runs'); ck.nontrivial((c.id, cb))
+            tmps = [n for n in rr.files if n.endswith('.tmp')]; want = sorted(m['fname'][(cb, i)][1] for i in range(len(STEMS[cb])))
+            bad = []
+            if rr.rc == 0 and tmps: bad.append('exit 0 but *.tmp left: %s' % tmps)
+            if rr.rc == 0 and sorted(n for n in rr.files if not n.endswith('.tmp')) != want: bad.append('exit 0 but final-named files are %s, expected %s' % (sorted(rr.files), want))
+            if rr.rc != 0 and [n for n in rr.files if not n.endswith('.tmp')]: bad.append('failure but final-named files exist')
+            if (rr.rc == 0) != (m['status'][0] == 'done'): bad.append('exit status impl=%s model=%s' % (rr.rc, m['status']))
+            if bad: ck.disagreement('%s over an empty range (-s %s -e %s, tip %d)' % (cb, s_, e_, T), '\n'.join(bad), c, in_domain=True)
     models = run.run_model(ck.tools, cases, ['csv'])
     from concurrent.futures import ThreadPoolExecutor
     def one(c): return c, [(cb, run.run_impl(ck.tools, c, cb)) for cb in c.meta['cbs']]
